@@ -111,9 +111,32 @@ class Fmt(object):
                 exp = None if v == "None" else int(v)
             elif typ == "str":
                 exp = "" if v == "-" else bytes.fromhex(v).decode("utf-8")
+            elif typ == "text":
+                exp = v
+            elif typ == "floordiv":
+                a, b = v.split("/")
+                exp = int(a) // int(b)
+            elif typ in ("rg-gain", "rg-peak"):
+                if v == "-":
+                    if got != "<missing>":
+                        bad[attr] = ("<absent>", got)
+                    continue
+                gen, raw = v.split(":")
+                raw = int(raw)
+                if gen == "7":
+                    exp = raw / 100.0 if typ == "rg-gain" else raw / 65535.0
+                else:
+                    exp = 64.82 - raw / 256.0 if typ == "rg-gain" else (10 ** (raw / (256.0 * 20.0)) / 65535.0)
+            elif typ == "bitrate":
+                how, n = v.split(":")
+                if how == "v":
+                    exp = int(n)
+                else:
+                    import decimal
+                    exp = int(decimal.Decimal.from_float(int(n) / ratio(ans["length"])).to_integral_value(decimal.ROUND_HALF_EVEN))
             else:
                 exp = v
-            if got != exp or (typ == "ratio" and not isinstance(got, float)):
+            if got != exp:
                 bad[attr] = (exp, got)
         return bad
 
@@ -527,7 +550,375 @@ class TakFmt(Fmt):
         return out
 
 
-FORMATS = [WavPackFmt(), MonkeysAudioFmt(), OptimFROGFmt(), TrueAudioFmt(), TakFmt()]
+# ----------------------------------------------------------------------------------------------
+# Musepack
+
+def mpc_varint(v):
+    out = [v & 0x7F]
+    v >>= 7
+    while v:
+        out.append(0x80 | (v & 0x7F))
+        v >>= 7
+    return bytes(reversed(out))
+
+
+def mpc_packet(key, payload):
+    size = len(payload) + 2 + 1
+    while len(mpc_varint(size)) + 2 + len(payload) != size:
+        size += 1
+    return key + mpc_varint(size) + payload
+
+
+class MusepackFmt(Fmt):
+    name = "Musepack"
+    hm_kinds = ("MPC_SV7", "MPC_SV8")
+    info_path = "mutagen.musepack.MusepackInfo"
+    file_path = "mutagen.musepack.Musepack"
+    attrs = (("version", "version", "int"), ("channels", "channels", "int"), ("sample_rate", "sample_rate", "int"),
+             ("length", "length", "ratio"), ("bitrate", "bitrate", "bitrate"), ("title_gain", "title_gain", "rg-gain"),
+             ("title_peak", "title_peak", "rg-peak"), ("album_gain", "album_gain", "rg-gain"), ("album_peak", "album_peak", "rg-peak"))
+
+    @staticmethod
+    def line7(minor=0, frames=1000, is_=0, ms=1, maxband=31, profile=10, link=0, ri=0, maxlevel=0, tp=0, tg=0, ap=0, ag=0, gapless=0, last=0,
+              fastseek=0, u5=0, enc=118, u6=0):
+        return ("infoa op=build kind=MPC_SV7 minor=%d frames=%d is=%d ms=%d maxband=%d profile=%d link=%d ri=%d maxlevel=%d tp=%d tg=%d ap=%d ag=%d "
+                "gapless=%d last=%d fastseek=%d u5=%d enc=%d u6=%d" % (minor, frames, is_, ms, maxband, profile, link, ri, maxlevel, tp, tg, ap, ag,
+                                                                      gapless, last, fastseek, u5, enc, u6))
+
+    @staticmethod
+    def line8(crc=0x01020304, ver=8, samples=100000, silence=10, ri=0, maxbands=32, ch=2, ms=1, bp=3, shpad=b"", mid=(), rgver=1, tg=0, tp=0, ag=0,
+              ap=0, rgpad=b""):
+        return ("infoa op=build kind=MPC_SV8 crc=%d ver=%d samples=%d silence=%d ri=%d maxbands=%d ch=%d ms=%d bp=%d shpad=%s mk=%s mp=%s rgver=%d "
+                "tg=%d tp=%d ag=%d ap=%d rgpad=%s" % (crc, ver, samples, silence, ri, maxbands, ch, ms, bp, hx(shpad), ",".join(hx(k) for k, _ in mid),
+                                                     ",".join(hx(p) for _, p in mid), rgver, tg, tp, ag, ap, hx(rgpad)))
+
+    def spec_line(self, kind, p):
+        if kind == "MPC_SV7":
+            return self.line7(p["minor"], p["frames"], 0, p["ms"], p["max_band"], p["profile"], p["link"], p["rate_index"], p["max_level"],
+                              p["title_peak"], p["title_gain"], p["album_peak"], p["album_gain"], p["true_gapless"], p["last_frame_samples"],
+                              p["fast_seek"], 0, p["encoder"], 0)
+        H = hm()
+        body = bytes([8]) + mpc_varint(p["samples"]) + mpc_varint(p["begin_silence"]) + H._BW().put(p["rate_index"], 3).put(p["max_bands"] - 1, 5) \
+            .put(p["channels"] - 1, 4).put(p["ms"], 1).put(p["block_pwr"], 3).bytes()
+        return self.line8(zlib.crc32(body) & 0xFFFFFFFF, 8, p["samples"], p["begin_silence"], p["rate_index"], p["max_bands"], p["channels"], p["ms"],
+                          p["block_pwr"])
+
+    def spec_len(self, kind, p, data):
+        if kind == "MPC_SV7":
+            return 28
+        body_len = 1 + len(mpc_varint(p["samples"])) + len(mpc_varint(p["begin_silence"])) + 2
+        return 4 + len(mpc_packet(b"SH", b"\0" * (4 + body_len))) + len(mpc_packet(b"RG", b"\0" * 9))
+
+    def lattice(self, rng, scale):
+        out = []
+        tail7 = b"\x13" * 40
+        tail8 = mpc_packet(b"EI", b"\1\2\3\4\5\6\7") + mpc_packet(b"AP", b"x" * 20) + mpc_packet(b"SE", b"")
+
+        def a7(label, suffix=tail7, **kw):
+            out.append((label, self.line7(**kw), suffix))
+
+        def a8(label, suffix=tail8, **kw):
+            out.append((label, self.line8(**kw), suffix))
+
+        for name, bits in (("minor", 4), ("frames", 32), ("is_", 1), ("ms", 1), ("maxband", 6), ("profile", 4), ("link", 2), ("maxlevel", 16),
+                           ("tp", 16), ("ap", 16), ("fastseek", 1), ("u5", 19), ("enc", 8), ("u6", 24), ("last", 11)):
+            for v in edges(bits):
+                a7("sv7-" + name, **{name: v})
+        for ri in range(4):
+            for gl in (0, 1):
+                a7("sv7-rate", ri=ri, gapless=gl, last=rng.randrange(1, 1153) if gl else 0, frames=rng.randrange(1, 1 << 32))
+        for g in (-32768, -32767, -1, 0, 1, 32766, 32767):
+            a7("sv7-gain", tg=g, ag=-g - 1)
+        for n in (0, 1, 2, 3, 4, 5):
+            a7("sv7-short", suffix=b"\0" * n)
+        for ri in range(4):
+            for ch in (1, 2, 16):
+                a8("sv8-rate", ri=ri, ch=ch)
+        for name, bits, lo in (("crc", 32, 0), ("ver", 8, 0), ("maxbands", 5, 1), ("ms", 1, 0), ("bp", 3, 0), ("rgver", 8, 0), ("tp", 15, 0), ("ap", 15, 0)):
+            for v in edges(bits, lo):
+                a8("sv8-" + name, **{name: v})
+        a8("sv8-maxbands", maxbands=32)
+        for v in sorted(set(edges(63) + [127, 128, 16383, 16384, 2 ** 21 - 1, 2 ** 21, 2 ** 28, 2 ** 35, 2 ** 42, 2 ** 49, 2 ** 56 - 1, 2 ** 56])):
+            a8("sv8-samples", samples=v, silence=0)
+            a8("sv8-samples", samples=v, silence=v)
+            a8("sv8-samples", samples=0, silence=v)
+        for g in (-32768, -1, 0, 1, 32767):
+            a8("sv8-gain", tg=g, ag=-g - 1, tp=rng.randrange(1 << 15), ap=rng.randrange(1 << 15))
+        for peak in (32768, 65535):
+            a8("sv8-peak-unsigned", tp=peak, ap=peak)
+        mids = [(b"EI", b"\1\2\3\4\5\6\7"), (b"AA", b""), (b"ZZ", rbytes(rng, 200)), (b"ST", rbytes(rng, 130)), (b"SO", rbytes(rng, 17000))]
+        for mid in ([], mids[:1], mids[:3], mids, [mids[4], mids[4]]):
+            for pad in (b"", b"\0", b"\0" * 120):
+                a8("sv8-mid", mid=mid, shpad=pad, rgpad=pad)
+        for suffix in (b"", b"A", b"AP", b"ap\x03", b"@A\x03", b"SE\x03", b"ZZ", b"Z[\x03", b"B\x00\x03"):
+            a8("sv8-next-key", suffix=suffix)
+        for _ in range(25 * scale):
+            a7("sv7-random", minor=rng.randrange(16), frames=rng.randrange(1, 1 << 32), is_=rng.randrange(2), ms=rng.randrange(2), maxband=rng.randrange(64),
+               profile=rng.randrange(16), link=rng.randrange(4), ri=rng.randrange(4), maxlevel=rng.randrange(1 << 16), tp=rng.randrange(1 << 16),
+               tg=rng.randrange(-32768, 32768), ap=rng.randrange(1 << 16), ag=rng.randrange(-32768, 32768), gapless=0, last=rng.randrange(1 << 11),
+               fastseek=rng.randrange(2), u5=rng.randrange(1 << 19), enc=rng.randrange(256), u6=rng.randrange(1 << 24), suffix=rbytes(rng, rng.randrange(4, 30)))
+            s = rng.randrange(1 << rng.choice([7, 20, 40, 63]))
+            a8("sv8-random", crc=rng.randrange(1 << 32), ver=rng.randrange(256), samples=s, silence=rng.randrange(0, min(s, 5000) + 1), ri=rng.randrange(4),
+               maxbands=rng.randrange(1, 33), ch=rng.randrange(1, 17), ms=rng.randrange(2), bp=rng.randrange(8), shpad=b"\0" * rng.randrange(0, 5),
+               mid=[rng.choice(mids[:4]) for _ in range(rng.randrange(0, 3))], rgver=rng.randrange(256), tg=rng.randrange(-32768, 32768),
+               tp=rng.randrange(1 << 15), ag=rng.randrange(-32768, 32768), ap=rng.randrange(1 << 15), rgpad=b"\0" * rng.randrange(0, 4))
+        return out
+
+    def raw(self, rng, scale):
+        out = []
+        sh_body = bytes([8]) + mpc_varint(100000) + mpc_varint(10) + bytes([0x3F, 0x1B])
+        sh = mpc_packet(b"SH", b"\1\2\3\4" + sh_body)
+        rg = mpc_packet(b"RG", bytes([1]) + struct.pack(">hhhh", 100, -200, 0, 32767))
+        tail = mpc_packet(b"EI", b"\1\2\3\4\5\6\7") + mpc_packet(b"AP", b"x" * 20) + mpc_packet(b"SE", b"")
+        out.append(("sv8-plain", b"MPCK" + sh + rg + tail))
+        out.append(("sv8-order", b"MPCK" + rg + sh + tail))
+        out.append(("sv8-order", b"MPCK" + mpc_packet(b"EI", b"abc") + sh + mpc_packet(b"XY", b"") + rg + tail))
+        out.append(("sv8-dup", b"MPCK" + sh + sh + rg + tail))
+        out.append(("sv8-dup", b"MPCK" + rg + rg + sh + tail))
+        out.append(("sv8-missing", b"MPCK" + sh + tail))
+        out.append(("sv8-missing", b"MPCK" + rg + tail))
+        out.append(("sv8-missing", b"MPCK" + tail))
+        for key in (b"AA", b"ZZ", b"A@", b"Z[", b"@Z", b"[A", b"B\0", b"Y\xff", b"aa", b"A", b""):
+            out.append(("sv8-key", b"MPCK" + key + b"\x03" + sh + rg + tail))
+            out.append(("sv8-key", b"MPCK" + sh + key + b"\x03" + rg + tail))
+        # packet sizes: too small, huge, unterminated varints
+        for size in (b"\0", b"\1", b"\2", b"\3", b"\4", b"\x80\x03", b"\x80" * 8 + b"\x03", b"\x80" * 9 + b"\x03", b"\xff" * 8 + b"\x7f",
+                     b"\xff" * 9, b"\xc0" + b"\x80" * 7 + b"\0", b"\xbf" + b"\xff" * 7 + b"\x7f", b"\xff" * 8 + b"\x70", b"\xff" * 3):
+            for key in (b"EI", b"SH", b"RG"):
+                out.append(("sv8-size", b"MPCK" + key + size + sh + rg + tail))
+                out.append(("sv8-size", b"MPCK" + sh + key + size + rg + tail))
+        for n in range(0, 14):
+            out.append(("sv8-rg-size", b"MPCK" + sh + mpc_packet(b"RG", bytes(range(1, n + 1))) + tail))
+            out.append(("sv8-sh-size", b"MPCK" + mpc_packet(b"SH", (b"\1\2\3\4" + sh_body + b"\0\0\0")[:n]) + rg + tail))
+        for ri in range(8):
+            for ch in range(16):
+                out.append(("sv8-rate-ch", b"MPCK" + mpc_packet(b"SH", b"crc!" + bytes([8]) + mpc_varint(5000) + mpc_varint(0) + bytes([ri << 5 | 3, ch << 4 | 9])) + rg + tail))
+        for s, k in ((0, 0), (5, 5), (5, 6), (0, 2 ** 63 - 1), (2 ** 63 - 1, 0), (2 ** 63 - 1, 2 ** 63 - 1), (2 ** 56, 1), (127, 0), (128, 0), (16383, 1), (16384, 1)):
+            out.append(("sv8-samples", b"MPCK" + mpc_packet(b"SH", b"crc!" + bytes([8]) + mpc_varint(s) + mpc_varint(k) + bytes([0x20, 0x10])) + rg + tail))
+        for g in (-32768, -1, 0, 1, 32767, 256, 24660):
+            out.append(("sv8-gain", b"MPCK" + sh + mpc_packet(b"RG", bytes([1]) + struct.pack(">hhhh", g, -g - 1, g // 2, g)) + tail))
+        # SV7 / SV4-6
+        def sv7(vbyte=7, frames=1000, flags=0, tp=0, tg=0, ap=0, ag=0, rest=b"\0" * 12, magic=b"MP+"):
+            return magic + bytes([vbyte]) + struct.pack("<IIHhHh", frames, flags, tp, tg, ap, ag) + rest
+        for vb in range(0, 256, 1):
+            out.append(("sv7-version", sv7(vbyte=vb)))
+        for fr in edges(32):
+            out.append(("sv7-frames", sv7(frames=fr)))
+        for bit in range(32):
+            out.append(("sv7-flags", sv7(flags=1 << bit)))
+        for n in range(0, 12):
+            out.append(("sv7-short", sv7(rest=b"\0" * n)))
+        for v in range(0, 9):
+            for br in (0, 1, 128, 511):
+                dword = (br << 23) | (v << 11) | rng.randrange(1 << 11)
+                out.append(("sv456", struct.pack("<IHH", dword, rng.randrange(1 << 16), rng.choice([0, 1, 1000, 65535])) + rbytes(rng, 40)))
+        out.append(("sv456", struct.pack("<II", 5 << 11, 0) + b"\0" * 24))
+        out.append(("sv456", struct.pack("<II", 6 << 11, 0) + b"\0" * 24))
+        # ID3 skipping
+        for n in (0, 1, 127, 128, 300):
+            tag = b"ID3\x04\x00\x00" + syncsafe(n) + b"\0" * n
+            out.append(("id3-skip", tag + sv7()))
+            out.append(("id3-skip", tag + b"MPCK" + sh + rg + tail))
+            out.append(("id3-skip", tag[:rng.randrange(4, 10 + n + 1)]))
+        out.append(("id3-skip", b"ID3\x04\x00\x00\xff\xff\xff\xff" + b"\0" * 50))
+        out.append(("id3-skip", b"ID3\x04\x00\x00\x80\x80\x80\x8a" + sv7()))
+        for _ in range(40 * scale):
+            out.append(("random", rng.choice([b"MPCK", b"MP+\x07", b"MP+\x17", b""]) + rbytes(rng, rng.randrange(0, 60))))
+            n = rng.randrange(1, 5)
+            out.append(("random-packets", b"MPCK" + b"".join(rng.choice([b"SH", b"RG", b"EI", b"AP", b"SE", b"QQ"]) + bytes([rng.randrange(0, 30)]) + rbytes(rng, rng.randrange(0, 25)) for _ in range(n))))
+        return out
+
+
+# ----------------------------------------------------------------------------------------------
+# AAC (ADTS / ADIF)
+
+class BW(object):
+    """MSB-first bit writer"""
+    def __init__(self):
+        self.v = 0
+        self.n = 0
+
+    def put(self, val, bits):
+        assert 0 <= val < (1 << bits)
+        self.v = (self.v << bits) | val
+        self.n += bits
+        return self
+
+    def bytes(self):
+        pad = (-self.n) % 8
+        return ((self.v << pad).to_bytes((self.n + pad) // 8, "big")) if self.n else b""
+
+
+def adts_frame(flen=64, sfi=4, cc=2, pa=1, nordbif=0, id_=0, layer=0, profile=1, priv=0, orig=0, home=0, cbits=0, bf=0x7FF, sync=0xFFF, body=None, fill=0x21):
+    w = BW().put(sync, 12).put(id_, 1).put(layer, 2).put(pa, 1).put(profile, 2).put(sfi, 4).put(priv, 1).put(cc, 3).put(orig, 1).put(home, 1)
+    w.put(cbits, 2).put(flen, 13).put(bf, 11).put(nordbif, 2)
+    return w.bytes() + (body if body is not None else bytes([fill]) * max(flen - 7, 0))
+
+
+def pce_bits(w, sfi=4, front=(1,), side=(), back=(), lfe=0, assoc=0, cc=0, mono=None, stereo=None, matrix=None, comment=b"", tag=0, ot=1):
+    w.put(tag, 4).put(ot, 2).put(sfi, 4).put(len(front), 4).put(len(side), 4).put(len(back), 4).put(lfe, 2).put(assoc, 3).put(cc, 4)
+    for x in (mono, stereo):
+        if x is None:
+            w.put(0, 1)
+        else:
+            w.put(1, 1).put(x, 4)
+    if matrix is None:
+        w.put(0, 1)
+    else:
+        w.put(1, 1).put(matrix, 3)
+    for e in list(front) + list(side) + list(back):
+        w.put(e, 1).put(3, 4)
+    for _ in range(lfe):
+        w.put(1, 4)
+    for _ in range(assoc):
+        w.put(2, 4)
+    for _ in range(cc):
+        w.put(9, 5)
+    w.put(0, (-w.n) % 8)
+    w.put(len(comment), 8)
+    for c in comment:
+        w.put(c, 8)
+    return w
+
+
+def adif_file(bitrate=128000, copyright=None, btype=0, pces=None, payload=b"\x21" * 50, orig=0, home=0, fullness=0):
+    w = BW()
+    for c in b"ADIF":
+        w.put(c, 8)
+    if copyright is None:
+        w.put(0, 1)
+    else:
+        w.put(1, 1)
+        for c in copyright:
+            w.put(c, 8)
+    w.put(orig, 1).put(home, 1).put(btype, 1).put(bitrate, 23)
+    pces = pces if pces is not None else [dict()]
+    w.put(len(pces) - 1, 4)
+    for i, pc in enumerate(pces):
+        if btype == 0 and i == 0:
+            w.put(fullness, 20)
+        pce_bits(w, **pc)
+    return w.bytes() + payload
+
+
+class AacFmt(Fmt):
+    name = "AAC"
+    hm_kinds = ("AAC_ADTS",)
+    info_path = "mutagen.aac.AACInfo"
+    file_path = "mutagen.aac.AAC"
+    attrs = (("channels", "channels", "int"), ("sample_rate", "sample_rate", "int"), ("bitrate", "bitrate", "floordiv"),
+             ("length", "length", "ratio"), ("type", "_type", "text"))
+
+    @staticmethod
+    def line(id_=0, pa=1, profile=1, sfi=4, priv=0, cc=2, orig=0, home=0, frames=()):
+        return ("infoa op=build kind=AAC_ADTS id=%d pa=%d profile=%d sfi=%d priv=%d cc=%d orig=%d home=%d cb=%s bf=%s nb=%s bodies=%s" % (
+            id_, pa, profile, sfi, priv, cc, orig, home, ",".join(str(f[0]) for f in frames), ",".join(str(f[1]) for f in frames),
+            ",".join(str(f[2]) for f in frames), ",".join(hx(f[3]) for f in frames)))
+
+    def spec_line(self, kind, p):
+        data = hm().BUILDERS[kind](p)[0]
+        frames = []
+        pos = 0
+        for i in range(p["frames"]):
+            flen = p["frame_length"] + (p["length_jitter"] * (i % 3) if p["length_jitter"] else 0)
+            frames.append((0, p["buffer_fullness"], p["nordbif"], data[pos + 7:pos + flen]))
+            pos += flen
+        return self.line(p["id"], p["protection_absent"], p["profile"], p["sf_index"], p["private_bit"], p["chan_config"], p["original"], p["home"], frames)
+
+    def lattice(self, rng, scale):
+        out = []
+
+        def add(label, suffix=b"", n=4, blen=None, cb=0, bf=0x7FF, nb=0, **kw):
+            pa = kw.get("pa", 1)
+            need = 0 if pa == 1 else (2 if nb == 0 else 4 * nb + 4)
+            frames = [(cb, bf, nb, rbytes(rng, (blen if blen is not None else rng.randrange(need + 1, 60))).replace(b"\xff", b"\x7f")) for _ in range(n)]
+            out.append((label, self.line(frames=frames, **kw), suffix))
+
+        for sfi in range(13):
+            for cc in range(8):
+                add("adts-row", sfi=sfi, cc=cc, id_=rng.randrange(2), profile=rng.randrange(4))
+        for name in ("id_", "pa", "priv", "orig", "home"):
+            add("adts-bit", **{name: 1 if name != "pa" else 0})
+        for cb in range(4):
+            add("adts-copyright", cb=cb)
+        for bf in edges(11):
+            add("adts-fullness", bf=bf)
+        for nb in range(4):
+            for pa in (0, 1):
+                add("adts-blocks", nb=nb, pa=pa, blen=40)
+        for n in (3, 4, 50, 99, 100, 101, 130):
+            add("adts-count", n=n, blen=9)
+        for blen in (0, 1, 2, 8184):
+            add("adts-body-len", blen=blen, n=3)
+        for suffix in (b"\0", b"\0" * 9, b"\0" * 10, b"\0" * 11, b"TAG" + b"\0" * 125, b"\x7f" * 20, b"\xff\x00", b"\xff\xf1"):
+            add("adts-suffix", suffix=suffix)
+        for _ in range(20 * scale):
+            add("adts-random", id_=rng.randrange(2), pa=rng.randrange(2), profile=rng.randrange(4), sfi=rng.randrange(13), priv=rng.randrange(2), cc=rng.randrange(8),
+                orig=rng.randrange(2), home=rng.randrange(2), n=rng.randrange(3, 20), cb=rng.randrange(4), bf=rng.randrange(1 << 11), nb=rng.randrange(4), blen=rng.randrange(16, 200))
+        return out
+
+    def raw(self, rng, scale):
+        out = []
+        for sfi in range(16):
+            for cc in range(8):
+                out.append(("adts-rate-cc", b"".join(adts_frame(rng.randrange(8, 300), sfi, cc) for _ in range(rng.randrange(3, 7)))))
+        for nframes in (0, 1, 2, 3, 4, 99, 100, 101, 120):
+            out.append(("adts-frames", adts_frame(40) * nframes))
+            out.append(("adts-frames", adts_frame(40) * nframes + b"\0" * 30))
+        for pa in (0, 1):
+            for n in range(4):
+                out.append(("adts-crc", adts_frame(60, pa=pa, nordbif=n) * 4))
+                out.append(("adts-crc", adts_frame(9, pa=pa, nordbif=n) * 4))
+        for flen in (0, 1, 6, 7, 8, 9, 8191):
+            out.append(("adts-flen", adts_frame(flen) * 4))
+            out.append(("adts-flen", adts_frame(64) * 2 + adts_frame(flen) + adts_frame(64) * 3))
+        for cut in (1, 6, 7, 8, 30, 63):
+            out.append(("adts-truncated", (adts_frame(64) * 3)[:-cut]))
+            out.append(("adts-truncated", (adts_frame(64) * 4)[:-cut]))
+        for junk in (b"\0", b"\xff", b"\xff\x00", b"\xff\xef", b"abc\xff\xf0", b"\xff" * 5, b"\x00" * 9, b"\x00" * 10, b"\x00" * 11, b"\xff\x00" * 5, b"\xff\x00" * 6):
+            out.append(("adts-junk-between", adts_frame(64) * 2 + junk + adts_frame(64) * 3))
+            out.append(("adts-junk-front", junk + adts_frame(64) * 4))
+        for n in (0, 1, 100, 509, 510, 511, 512, 513, 600):
+            out.append(("adts-late-sync", b"\x01" * n + adts_frame(32) * 5))
+        for k in range(1, 13):
+            # k false syncs in front of the real stream (ten tries)
+            out.append(("adts-tries", b"\xff\xf1\x50\x80\x00\x1f\xfc" * k + b"\0" * 20 + adts_frame(32) * 4))
+        for field, kw in (("id", dict(id_=1)), ("layer", dict(layer=1)), ("profile", dict(profile=2)), ("sfi", dict(sfi=5)), ("priv", dict(priv=1)), ("cc", dict(cc=1)),
+                          ("orig", dict(orig=1)), ("home", dict(home=1)), ("cbits", dict(cbits=3)), ("bf", dict(bf=0)), ("pa", dict(pa=0))):
+            out.append(("adts-key-change", adts_frame(64) * 3 + adts_frame(64, **kw) + adts_frame(64) * 2))
+            out.append(("adts-key-change", adts_frame(64) + adts_frame(64, **kw) + adts_frame(64) * 4))
+        for n in (0, 1, 127, 300):
+            tag = b"ID3\x04\x00\x00" + syncsafe(n) + b"\0" * n
+            out.append(("id3-skip", tag + adts_frame(50) * 4))
+            out.append(("id3-skip", tag + adif_file()))
+            out.append(("id3-skip", tag[:7]))
+        # ADIF
+        for br in edges(23):
+            out.append(("adif-bitrate", adif_file(bitrate=br)))
+        for sfi in range(16):
+            out.append(("adif-sfi", adif_file(pces=[dict(sfi=sfi)])))
+        for btype in (0, 1):
+            for cr in (None, b"copyright"):
+                out.append(("adif-head", adif_file(btype=btype, copyright=cr, orig=1, home=1, fullness=0xFFFFF)))
+        layouts = [((0,), (), (), 0), ((1,), (), (), 0), ((0, 1), (), (1,), 1), ((1,) * 15, (1,) * 15, (1,) * 15, 3), ((), (), (), 0), ((0, 1, 1), (0,), (), 2)]
+        for front, side, back, lfe in layouts:
+            for extra in (dict(), dict(mono=5, stereo=9, matrix=3), dict(assoc=7, cc=15), dict(comment=b"hello world")):
+                out.append(("adif-pce", adif_file(pces=[dict(front=front, side=side, back=back, lfe=lfe, **extra)])))
+        for n in (2, 3, 16):
+            out.append(("adif-npce", adif_file(pces=[dict(front=(1,))] + [dict(front=(0,), sfi=3, comment=b"x" * i) for i in range(n - 1)])))
+        base = adif_file(pces=[dict(front=(0, 1), back=(1,), lfe=1, comment=b"abc")], payload=b"")
+        for k in range(0, len(base) + 1):
+            out.append(("adif-truncated", base[:k]))
+        out.append(("adif-comment-beyond-eof", adif_file(pces=[dict()], payload=b"")[:-1] + b"\xff"))
+        out.append(("adif-comment-beyond-eof", adif_file(pces=[dict()], payload=b"")[:-1] + b"\x05ab"))
+        for _ in range(40 * scale):
+            out.append(("random-adif", b"ADIF" + rbytes(rng, rng.randrange(0, 60))))
+            out.append(("random-adts", b"".join(rng.choice([b"\xff", b"\xff\xf1", b"\xff\xf9", rbytes(rng, 3), adts_frame(rng.randrange(7, 40), rng.randrange(13), rng.randrange(8))[:rng.randrange(5, 50)]])
+                                                for _ in range(rng.randrange(1, 30)))))
+        return out
+
+
+FORMATS = [WavPackFmt(), MonkeysAudioFmt(), OptimFROGFmt(), TrueAudioFmt(), TakFmt(), MusepackFmt(), AacFmt()]
 
 
 # ----------------------------------------------------------------------------------------------
